@@ -1,10 +1,13 @@
 package props
 
 import (
+	"fmt"
+	"io"
 	"os"
 	"runtime"
 	"strings"
 	"testing"
+	"time"
 
 	"pgregory.net/rapid"
 
@@ -152,3 +155,50 @@ func genC08(t *rapid.T) streamCase {
 }
 
 func TestC08(t *testing.T) { runPropJ(t, "C08", genC08, checkC08, true) }
+
+// c08Pipe: the same stream through an OS pipe (a source that supports read deadlines, as pipes, FIFOs, character devices and
+// sockets do), with the producer pausing before the last sample; sequential and parallel twin must agree.
+type c08Pipe struct {
+	Workflow string `json:"workflow"`
+	Seed     uint64 `json:"seed"`
+	PauseMs  int    `json:"pause_ms"`
+}
+
+func checkC08Pipe(c c08Pipe) (Outcome, error) {
+	w := workflows[c.Workflow]
+	out := Outcome{NonTrivial: true, Classes: []string{"os-pipe", fmt.Sprintf("pause:%dms", c.PauseMs)}}
+	stream := sampleBytes(c.Seed, w.S*w.SampleBytes)
+	run := func(fn func(io.Reader) (bool, error)) (bool, error, bool) {
+		pr, pw, err := os.Pipe()
+		if err != nil {
+			return false, err, true
+		}
+		defer pr.Close()
+		go func() {
+			defer pw.Close()
+			cut := (w.S - 1) * w.SampleBytes
+			_, _ = pw.Write(stream[:cut])
+			time.Sleep(time.Duration(c.PauseMs) * time.Millisecond)
+			_, _ = pw.Write(stream[cut:])
+		}()
+		res := callWatched(func() (bool, error) { return fn(pr) }, 10*time.Minute)
+		return res.Verdict, res.Err, res.Hung || res.Slow || res.Panic != nil
+	}
+	vs, es, bad := run(w.Seq)
+	if bad {
+		return Outcome{Skip: "INCONCLUSIVE sequential run on the pipe did not complete"}, nil
+	}
+	vf, ef, bad := run(w.Fast)
+	if bad {
+		return out, violation("pipe-hang", "%s: the parallel variant did not return on an OS pipe whose producer pauses %d ms", c.Workflow, c.PauseMs)
+	}
+	if vs != vf || namedItem(es) != namedItem(ef) {
+		return out, violation("pipe", "%s on an OS pipe (producer pauses %d ms before the last sample): sequential (%v, %v), parallel (%v, %v)", c.Workflow, c.PauseMs, vs, es, vf, ef)
+	}
+	return out, nil
+}
+
+// TestC08SlowPipe: deterministic; pauses of 0 s, 0.2 s and 12 s.
+func TestC08SlowPipe(t *testing.T) {
+	enumerate(t, "C08", []c08Pipe{{"period", 11, 0}, {"period", 12, 200}, {"period", 13, 12000}}, checkC08Pipe)
+}
